@@ -6,6 +6,8 @@ import random
 from collections import Counter
 
 from .. import gen
+
+gen.WIDE_RATE = 0   # wide (~100 operation) instances only in the dedicated cases below (short query bursts)
 from ..drive import Run, gen_history_case, all_histories
 
 ID = "C05"
@@ -85,6 +87,16 @@ def gen_cases(ctx):
         c["resets"] = rng.random() < 0.25
         # the unscheduled-operations observer may also be created in the middle of a history
         c["mirror_after"] = rng.choice([0, 0, 1, 2, 3, rng.randint(1, 10)])
+        yield c
+    for i in range(ctx.scale(6, 700)):
+        # wide instances (two-digit job / machine ids, ~100 operations), short query bursts
+        gen.WIDE_RATE = 1.0
+        try:
+            c = gen_history_case(rng, classes=["classic", "irregular", "recirc", "flexible", "gap", "zero"],
+                                 filters=i % 2 == 0)
+        finally:
+            gen.WIDE_RATE = 0
+        c.update(kind="history", resets=False, mirror_after=rng.choice([0, 5]), burst=[2, 6])
         yield c
     for i in range(ctx.scale(50, 9000)):
         inst = gen.gen_instance(rng, rng.choice(gen.INSTANCE_CLASSES), max_jobs=3,
@@ -323,6 +335,50 @@ def run_case(ctx, case):
     if case["kind"] == "history":
         run = Run(case["instance"], case.get("filter"))
         mirror_after = case.get("mirror_after", 0)
+        probe = None
+        if case["seed"] % 4 == 1:
+            # a user observer subscribed BEFORE everything else asks the dispatcher from inside
+            # update() / reset(): at that moment the answers already reflect the new state,
+            # whatever other observers (not yet notified) hold
+            from job_shop_lib.dispatching import DispatcherObserver
+
+            class Probe(DispatcherObserver):
+                _is_singleton = False
+
+                def _ask(self):
+                    dd = self.dispatcher
+                    self.seen = {
+                        "unscheduled_operations": sorted(_ids(dd.unscheduled_operations())),
+                        "scheduled_operations": sorted(_ids(dd.scheduled_operations())),
+                        "raw_ready_operations": _ids(dd.raw_ready_operations()),
+                        "uncompleted_minus_ongoing": sorted(
+                            set(_ids(dd.uncompleted_operations()))
+                            - {so.operation.operation_id for so in dd.ongoing_operations()}),
+                    }
+
+                def update(self, scheduled_operation):
+                    self._ask()
+
+                def reset(self):
+                    self._ask()
+            probe = Probe(run.d)
+            ctx.count("histories_with_an_early_probing_observer")
+
+        def judge_probe(where):
+            if probe is None or not getattr(probe, "seen", None):
+                return
+            rr = run.r
+            want = {"unscheduled_operations": sorted(rr.unscheduled()),
+                    "scheduled_operations": sorted(rr.scheduled()),
+                    "raw_ready_operations": rr.ready(),
+                    "uncompleted_minus_ongoing": sorted(rr.unscheduled())}
+            ctx.count("probe_answers_checked", len(want))
+            bad = {k: {"got": probe.seen[k], "want": v} for k, v in want.items() if probe.seen[k] != v}
+            probe.seen = None
+            if bad:
+                ctx.violation("c05_query_mismatch",
+                              {"query": "asked from inside an observer " + where, "wrong": bad,
+                               "history": list(rr.history), "filter": run.filter_names})
         mirror = UnscheduledOperationsObserver(run.d) if mirror_after == 0 else None
         if case["seed"] % 5 == 0 and mirror is not None:
             # built-in observers call the cached queries as well; their use must not disturb answers
@@ -345,6 +401,9 @@ def run_case(ctx, case):
                                             ready_operations_filter=run.d.ready_operations_filter))
             sib_mirror = UnscheduledOperationsObserver(sib.d)
             ctx.count("histories_with_a_sibling_dispatcher")
+        lo_b, hi_b = case.get("burst", [5, 40])
+        if "burst" in case:
+            ctx.count("wide_histories")
         while not run.done():
             ctx.count("states")
             if sib is not None:
@@ -353,7 +412,7 @@ def run_case(ctx, case):
                 o9, m9 = sib.choose(rng, rng.choice(gen.POLICIES))
                 sib.dispatch(o9, m9)
                 query_burst(ctx, sib, sib_mirror, rng, 2, 8)
-            traces.append(tuple(query_burst(ctx, run, mirror, rng)))
+            traces.append(tuple(query_burst(ctx, run, mirror, rng, lo_b, hi_b)))
             if rng.random() < 0.3:
                 check_partitions(ctx, run)
             now = run.r.current_time(run.filter_names) if run.exact_filters else run.r.current_time(None)
@@ -362,11 +421,13 @@ def run_case(ctx, case):
             if case.get("resets") and steps > 0 and rng.random() < 0.12:
                 run.d.reset()
                 run.r.reset()
+                judge_probe("reset()")
                 ctx.count("resets_inside_history")
                 traces.append(("reset",) + tuple(query_burst(ctx, run, mirror, rng, 3, 12)))
             pol = case["policy"]
             o, m = run.choose(rng, pol if pol != "mixed" else rng.choice(gen.POLICIES))
             run.dispatch(o, m)
+            judge_probe("update()")
             steps += 1
             if attach_at is not None and len(run.r.history) >= attach_at:
                 attach_at = None
